@@ -34,8 +34,8 @@ def tier_bounds(tier):
     if tier == "quick":
         return dict(pools=["far4", "dup4"], pools_expensive=["dup4"], label_values=[None, 0, 1], max_batch=3, deviation_bound=1,
                     conformance_seeds=1, max_tapes_per_case=60, extra_every=3)
-    return dict(pools=["dup5", "far5", "line5", "grid5"], pools_expensive=["dup5"], label_values=[None, 0, 1],
-                max_batch=4, deviation_bound=2, conformance_seeds=2, max_tapes_per_case=150, extra_every=2)
+    return dict(pools=["dup5", "far5"], pools_expensive=["dup5"], label_values=[None, 0, 1],
+                max_batch=4, deviation_bound=2, conformance_seeds=2, max_tapes_per_case=100, extra_every=2)
 
 
 def make_shards(tier, seed, subjects=None):
@@ -275,7 +275,7 @@ def run_shard(spec, which):
                     continue
                 run_case(acc, which, subj, pname, X, lab, mode, cand, bs, b["deviation_bound"], b["max_tapes_per_case"],
                          b["conformance_seeds"], spec["seed"] * 100, extra=(i % b["extra_every"] == 0))
-                if i % b["extra_every"] == 0 or spec["tier"] == "thorough":
+                if i % b["extra_every"] == 0:
                     run_options(acc, which, subj, pname, X, lab, mode, cand, bs, spec["seed"] * 100)
                 if i % 211 == 0:
                     acc.sample({"subject": subj.name, "pool": pname, "labels": list(lab), "cand_mode": mode,
@@ -310,10 +310,10 @@ def bounds(tier):
     b["subjects"] = [s.name for s in SP.SUBJECTS if s.quick or tier != "quick"]
     b["note"] = "subjects with cost >= 3 use pools_expensive; conformance / return_utilities=False runs on every extra_every-th case"
     b["candidate_modes"] = "None; index subsets of the unlabeled samples (quick: all / first / last / all-but-first / first+last; thorough: every " \
-        "non-empty subset); for strategies that score samples independently also index sets containing labeled samples; feature rows of the " \
+        "non-empty subset of up to three unlabeled samples, otherwise all / every single one / every pair / every all-but-one); for strategies that score samples independently also index sets containing labeled samples; feature rows of the " \
         "unlabeled samples, and the same plus one foreign row"
     b["batch_sizes"] = "1..min(n_candidates+1, max_batch)"
-    b["query_options"] = "on every extra_every-th case (thorough: every case) the query is repeated with each non-default optional argument the " \
+    b["query_options"] = "on every extra_every-th case the query is repeated with each non-default optional argument the " \
         "strategy offers: sample_weight, utility_weight, an already fitted model with fit_clf/fit_reg/fit_ensemble=False, update=True, X_eval " \
         "(default tape and one real seed each)"
     b["pool_data"] = {p: SP.POOLS[p] for p in b["pools"]}
